@@ -186,6 +186,8 @@ def make_sd(case):
 
     if case.get("order"):
         return make_sd_ordered(case)
+    if case.get("iso_input"):
+        return make_sd_ordered(dict(case, order=list(range(8))))
     cfg = SuccessionDiagram.default_config()
     cfg["max_motifs_per_node"] = case.get("max_motifs", 100000)
     for k, v in case.get("cfg", {}).items():
@@ -202,7 +204,10 @@ def reorder_network(bn, order):
         reg["source"] = bn.get_variable_name(reg["source"])
         reg["target"] = bn.get_variable_name(reg["target"])
         out.add_regulation(reg)
+    known = set(bn.variable_names())
     for name in order:
+        if name not in known:
+            continue            # an extra variable: an isolated input without update function and without regulations
         f = bn.get_update_function(name)
         if f is not None:
             out.set_update_function(name, str(f))
@@ -224,6 +229,8 @@ def make_sd_ordered(case):
     names = bn.variable_names()
     order = [names[i % len(names)] for i in case["order"]]
     order = list(dict.fromkeys(order)) + [x for x in names if x not in order]
+    if case.get("iso_input") and "zz_iso" not in names:
+        order.insert(case["order"][0] % (len(order) + 1), "zz_iso")
     return SuccessionDiagram(reorder_network(bn, order), cfg)
 
 
